@@ -18,6 +18,7 @@ Clauses of the property:
   tie                                                      C13_flags_are_distinct_bits, C13_tree_is_repaired
 -/
 import OccaProofs.Lemmas.CppCond
+import OccaProofs.Lemmas.CppExpand
 import OccaModel.Cpp
 
 namespace Occa.Cpp.C13
@@ -123,6 +124,54 @@ example : eval true (.bin .land (.lit false 0) (.bin .div (.lit false 1) (.lit f
 theorem C13_eager_and_traps :
     eval false (.bin .land (.lit false 0) (.bin .div (.lit false 1) (.lit false 0))) = .trap ∧
     eval false (.bin .lor (.lit false 1) (.bin .mod (.lit false 1) (.lit false 0))) = .trap := by
+  decide
+
+/-! ### (d) macro expansion
+
+`expandLine` is OCCA's algorithm (fuel-indexed), `refExpand` the C standard's (hide sets).  What is
+PROVED here: fuel is only a proof device (monotonicity: a result, once reached, is the result for every
+larger amount); the expansion does NOT always terminate (finding F63, with the translation unit); OCCA and
+the standard do NOT always agree (finding F62, with the translation unit).  Agreement on the generated
+class (acyclic tables; self-reference without macro names in arguments) is CHECKED by the three-way
+differential run, not proved.  -/
+
+/-- if the expansion of a line finishes with `n` units of fuel it finishes with the same result for every
+    larger amount: "terminates" and "the result" are properties of the table and the line alone -/
+theorem C13_expand_fuel_monotone (vc : Bool) (s : PP) (toks : List Tok) (n k : Nat) (r : Res (List Tok × PP))
+    (h : expandLine vc n s toks = r) (hne : r ≠ .outOfFuel) : expandLine vc (n + k) s toks = r :=
+  expandLine_mono_le vc s toks r hne n k h
+
+/-- FULL statement (termination): for every macro table and every source line some amount of fuel suffices -/
+def C13_expand_terminates_full : Prop :=
+  ∀ (vc : Bool) (tbl : List Macro) (toks : List Tok), ∃ n, expandLine vc n { table := tbl } toks ≠ .outOfFuel
+
+/-- it is false: with `#define f(x) g(x)` / `#define g(x) f(x)` the line `f(1)` is expanded for ever
+    (the `)` that ends f's expansion is consumed as the end of g's argument list, which re-enables f
+    before g's expansion is re-scanned).  Finding F63; the harness observes the hang on the real code. -/
+theorem C13_expand_terminates_full_fails : ¬ C13_expand_terminates_full := by
+  intro h
+  obtain ⟨n, hn⟩ := h true tblFG [tId "f", tOp "(", tNum "1", tOp ")"]
+  exact hn (expand_fg_diverges true n)
+
+/-- FULL statement (agreement): whenever both algorithms finish they produce the same tokens -/
+def C13_expand_agrees_full : Prop :=
+  ∀ (tbl : List Macro) (toks : List Tok) (n : Nat) (o : List Tok) (s' : PP) (r : List Tok),
+    expandLine true n { table := tbl } toks = .ok (o, s') → refExpand n tbl toks = .ok r →
+    o.filter (fun t => !t.isNl) = r
+
+/-- it is false: `#define A A B`, `#define f(x) x`, `f(A)`: OCCA gives `A B B`, the standard `A B`
+    (the `A` that was left alone inside its own expansion is expanded when f's expansion is re-scanned:
+    no "blue paint").  Finding F62. -/
+theorem C13_expand_agrees_full_fails : ¬ C13_expand_agrees_full := by
+  intro h
+  have := h [⟨"A", false, 0, false, [.raw (tId "A"), .raw (tId "B")], false⟩,
+             ⟨"f", true, 1, false, [.arg 0], false⟩]
+            [tId "f", tOp "(", tId "A", tOp ")"] 16
+            [tId "A", tId "B", tId "B", nlTok]
+            { table := [⟨"A", false, 0, false, [.raw (tId "A"), .raw (tId "B")], false⟩,
+                        ⟨"f", true, 1, false, [.arg 0], false⟩] }
+            [tId "A", tId "B"] (by decide +kernel) (by decide +kernel)
+  revert this
   decide
 
 end Occa.Cpp.C13
